@@ -182,7 +182,7 @@ pub fn struct_cast_fixed(rng: &mut Rng, fixed: Option<(&'static str, bool, u32, 
 }
 
 /// an operand with an effect in a position the exporter emits once today
-pub const STATEMENTS: u64 = 24;
+pub const STATEMENTS: u64 = 25;
 const INT_OPS: [&str; 10] = ["+=", "-=", "*=", "/=", "%=", "&=", "|=", "^=", "<<=", ">>="];
 const FLOAT_OPS: [&str; 5] = ["+=", "-=", "*=", "/=", "%="];
 /// the statements that contain a compound assignment
@@ -234,6 +234,8 @@ pub fn effect_operand_fixed(rng: &mut Rng, fixed: Option<(&'static str, u64, &'s
         21 if k == "float" => ("float3x3 mm = float3x3(v, r, v);\n    r = mul(mm, r + (float3)(x++)) + mul(r * bump(y), transpose(mm));".to_string(), "mul:operand-increment"),
         22 => (format!("r[(i++) & 1] {} bump(y);", aop), "compound-assign:vector-element-index-increment"),
         23 if k == "float" => ("r.x = abs(x++) + dot(r, (float3)bump(y));".to_string(), "builtin:abs-dot"),
+        // the two operands with an effect depend on each other: `select`'s operands are emitted in reverse order
+        24 => (format!("r = select(bool3(b, !b, b), r + ({}3)(x++), ({}3)bump(x));", k, k), "builtin:select-dependent-operands"),
         _ => (format!("r.x = abs(({})(x++)) + max(next(3), i++);", if k == "uint" { "int" } else { k }), "builtin:abs-max"),
     };
     out.push_str(&format!("    {}\n", st));
